@@ -46,6 +46,17 @@ def _rw_job(job):
     st = spa.struct
     n = 0
     base = bytes(1024)
+    # reads: the SAME live accessor sees every raw word under unit A, then B, then A again (the word does not move
+    # while the unit setting flips)
+    for raw in range(lo, hi):
+        for ui, unit in list(enumerate(order)) + [(0, order[0])]:
+            n += 1
+            blk = base[:33] + bytes([ui]) + base[34:100] + raw.to_bytes(2, "big") + base[102:]
+            st.set_status_block(blk)
+            v = t.value
+            exp = ref_temp(raw, unit)
+            if v != exp:
+                return n, ("read", f"raw {raw} unit {unit} (after reading the same word in the other unit): value {v!r}, expected {exp!r}")
     for ui, unit in enumerate(order):
         blk0 = base[:33] + bytes([ui]) + base[34:]
         for raw in range(lo, hi):
@@ -162,6 +173,22 @@ def _heater_job(job):
             exp = tuple(ref_temp((raw + off) % 65536, unit) for off in (0, 3, 7))
             if got != exp:
                 return job, n, ("reading", f"unit {unit} raw {raw}: heater reads {got}, expected {exp}"), None
+        # unit flipped while the stored readings stay: readings, symbol and limits must all follow
+        for raw in (540, 684):
+            blk = b0
+            for k in ("SetpointG", "DisplayedTempG", "RealSetPointG"):
+                blk = f[k].put_raw(blk, raw)
+            for uj in (ui, 1 - ui, ui):
+                if uj >= len(units[:2]):
+                    continue
+                st.set_status_block(f["TempUnits"].put_raw(blk, uj))
+                n += 1
+                u2 = units[uj]
+                exp3 = (ref_temp(raw, u2),) * 3
+                got3 = (heater.target_temperature, heater.current_temperature, heater.real_target_temperature)
+                if got3 != exp3 or heater.temperature_unit != LIMITS.get(u2, LIMITS["F"])[2]:
+                    return job, n, ("unit-flip", f"raw {raw} after switching the unit to {u2}: heater reads {got3} {heater.temperature_unit}, "
+                                                 f"expected {exp3}"), None
         # operation ladder
         for heat, cool in itertools.product((0, 1), repeat=2):
             for cur, real in ((500, 600), (600, 600), (700, 600)):
